@@ -10,5 +10,5 @@ sed -i "$3" $D/include/tao/pegtl/$2
 if diff -rq /repo/include $D/include >/dev/null; then echo "MUTATION DID NOT CHANGE ANYTHING"; rm -rf $D; exit 3; fi
 diff -ru /repo/include $D/include | grep '^[-+]' | grep -v '^[-+][-+]' | head -6
 set +e
-VERIF_REPO=$D python3 /verif/vf/driver.py $1 --tier ${4:-quick} --no-evidence 2>&1 | grep -E "VIOLATION|KNOWN|ERROR|sig=|evaluations" | head -12
+VERIF_SHRINK=${VERIF_SHRINK:-0} VERIF_REPO=$D python3 /verif/vf/driver.py $1 --tier ${4:-quick} --no-evidence 2>&1 | grep -E "VIOLATION|KNOWN|ERROR|sig=|evaluations" | head -12
 rm -rf $D
